@@ -20,7 +20,7 @@ from vmon.evlog import log
 # task functions then neither sleep nor write to the event log.
 REFERENCE = False
 
-GET_TIMEOUT = 60.0          # async get()/next(timeout) in the host; far above the work
+GET_TIMEOUT = 120.0         # async get()/next(timeout) in the host; the stall guard decides earlier
 
 
 # --------------------------------------------------------------------------
@@ -492,6 +492,48 @@ class StopCont:
 # the REAL-lane scenario (runs in vmon.realchild)
 # --------------------------------------------------------------------------
 
+STALL = 25.0     # a call is hung when it has not returned and no worker logged anything for this long
+HARD = 200.0     # absolute cap per call
+
+
+def _evlog_size():
+    try:
+        return os.stat(os.environ['VERIF_EVLOG']).st_size
+    except (OSError, KeyError):
+        return -1
+
+
+def guarded(fn):
+    """run a (possibly forever blocking) call in a helper thread; the verdict
+    'hung' needs STALL seconds without any progress in the worker-side log"""
+    box = []
+
+    def run():
+        try:
+            box.append(('ok', fn()))
+        except BaseException:                   # noqa
+            import traceback
+            box.append(('err', traceback.format_exc()))
+    t = threading.Thread(target=run, daemon=True)
+    t.start()
+    t0 = last = time.monotonic()
+    size = _evlog_size()
+    while True:
+        t.join(0.2)
+        if not t.is_alive():
+            break
+        now = time.monotonic()
+        sz = _evlog_size()
+        if sz != size:
+            size, last = sz, now
+        if now - last > STALL or now - t0 > HARD:
+            return ['hung', round(now - t0, 1), round(now - last, 1)]
+    kind, v = box[0]
+    if kind == 'err':
+        raise RuntimeError('harness error inside a call: ' + v)
+    return v
+
+
 def sc_calls(params, obs, save):
     import billiard
     from billiard.pool import Pool
@@ -505,16 +547,27 @@ def sc_calls(params, obs, save):
     obs['worker_pids'] = pids
     obs['results'] = {}
     obs['in_progress'] = None
+    obs['aborted_at'] = None
     stopper = StopCont(pids, params.get('seed', 0)) if params.get('stopcont') else None
+
+    def finish(c, out):
+        obs['results'][c['cid']] = out
+        log('call_end', c=c['cid'])
+        if out and out[0] == 'hung':
+            obs['aborted_at'] = c['cid']
+            return False
+        return True
     try:
         for batch in params['batches']:
+            if obs['aborted_at']:
+                break
             if batch['mode'] == 'seq':
                 for c in batch['calls']:
                     obs['in_progress'] = [c['cid']]
                     save()
                     log('call', c=c['cid'], api=c['api'])
-                    obs['results'][c['cid']] = submit(pool, c)()
-                    log('call_end', c=c['cid'])
+                    if not finish(c, guarded(lambda: submit(pool, c)())):
+                        break
             else:
                 obs['in_progress'] = [c['cid'] for c in batch['calls']]
                 save()
@@ -524,9 +577,10 @@ def sc_calls(params, obs, save):
                     cols.append((c, submit(pool, c)))
                 for j in batch['collect']:
                     c, col = cols[j]
-                    obs['results'][c['cid']] = col()
-                    log('call_end', c=c['cid'])
-            obs['in_progress'] = None
+                    if not finish(c, guarded(col)):
+                        break
+            if not obs['aborted_at']:
+                obs['in_progress'] = None
     finally:
         if stopper is not None:
             obs['stops'] = stopper.stop()
